@@ -11,10 +11,12 @@
      all instances derived from one BitField).
    * exceptions: ValueError = Failed 0, UnavailableFieldError = Failed 1, UnknownTagError = Failed 2,
      anything else (RecursionError of _Tree.add_field, see [tree_add]) = OtherError.
-   * auto length: the code computes int(log(max_value, 2)) + 1 in floating point; the model uses the
-     bit length [Z.log2 v + 1], which the harness compares with the code for every v within +-2 of a
-     power of two up to 2^64 (they agree below 2^48 - 1; above, the float formula can be one bit wider,
-     never narrower). *)
+   * auto length: the code computes int(field.max_value).bit_length() (since fix b55359e; before, a
+     floating-point logarithm that was one bit too wide from 2^48 - 1 upwards).  Python's int.bit_length of
+     v >= 1 is [Z.log2 v + 1] = [bitlen v]; which formula the source has NOW is re-extracted on every run
+     ([gen_auto_length_exact], Generated/GenBitField.v; Proofs/BitFieldBits.v requires it to be the exact one)
+     and the harness compares the lengths the code chooses with the bit length for every v within +-2 of a
+     power of two up to 2^64 and for exact-fit layouts holding 2^48-1, 2^53, 2^63, 2^64-1. *)
 From Coq Require Import ZArith List Bool.
 Require Import Rig.Model.Base Rig.Generated.GenBitField.
 Import ListNotations.
@@ -379,6 +381,7 @@ Definition get_attr (st : state) (fv : fvals) (i : ident) : result (option Z) :=
   end.
 
 (* ------------------------------------------------------------------ assign_fields *)
+(* int.bit_length() of a positive int *)
 Definition bitlen (v : Z) : Z := Z.log2 v + 1.
 
 (* `for bit in range(0, n): if not (assigned & (fm << bit)): ... break` *)
